@@ -345,7 +345,10 @@ def observe(o):
     ev = {'cls': o.name if hasattr(o, 'frame_id') and k.__name__ != 'Properties' else 'Basic.Properties',
           'attrs': {n: _a(o, n) for n in names} or {'_': {'t': 'none'}}}
     try:
-        items = list(o)
+        import itertools as _it
+        items = list(_it.islice(iter(o), 5000))      # (an iteration that never ends must not eat the machine)
+        if len(items) >= 5000:
+            raise OverflowError('iteration yields more than 5000 items')
         ev['iter_names'] = [str(x[0]) for x in items]
         ev['iter_vals'] = [abstract(x[1]) for x in items]
         d = dict(o)
